@@ -629,6 +629,35 @@ fn check_inner(case: &Case, trace: &Trace, cfg: BuildCfg, variant: Variant) -> C
                     panic!("generator bug: call on dead instance in {case}");
                 }
                 let mode = mode_of(&spec, *method);
+                // which cell of the fall-through decision table does this call visit
+                {
+                    let class = match (method.has_default(), method.has_real(), method.partial_by_default()) {
+                        (_, true, true) => "pbd_real",
+                        (_, false, true) => "pbd_none",
+                        (true, true, _) => "both",
+                        (true, false, _) => "default",
+                        (false, true, _) => "real",
+                        (false, false, _) => "neither",
+                    };
+                    let accepted = spec
+                        .pats
+                        .iter()
+                        .any(|p| p.method == *method && p.mask & (1 << method.arg_code(args)) != 0);
+                    let situation = match mode {
+                        Mode::Unmentioned => "unmentioned",
+                        Mode::Unordered if !accepted => "unmatched",
+                        Mode::Unordered => "matched",
+                        Mode::Ordered => "ordered",
+                    };
+                    if situation != "matched" && situation != "ordered" {
+                        stats.bump(&format!(
+                            "cell_{}_{}_{}",
+                            if case.partial { "partial" } else { "strict" },
+                            situation,
+                            class
+                        ));
+                    }
+                }
                 let mut inj = *inject;
                 let mut exp_events = vec![];
                 let exp = spec.call(*method, args, *inst == 0, &mut inj, &mut exp_events);
